@@ -13,12 +13,15 @@ open(f'{d}/agent_meta.txt', 'w').write(txt)
 def section(title):
     m = re.search(title + r'[^\n]*\n[-=]*\n(.*?)(?:\n\n[A-Z][^\n]*\n[-=]{3,}|\Z)', txt, re.S)
     return ' '.join(m.group(1).split()) if m else ''
+def needs():
+    m = re.search(r'(?is)((?:exactly )?what (?:is|it) need(?:ed|s)[^\n]*\n.*?)(?:\n\s*\n|\Z)', txt)
+    return ' '.join(m.group(1).split())[:800] if m else ''
 meta = {
  'property': prop,
  'also_check': also,
  'origin': 'independent sub-agent given only the property text and its own scratch worktree; confirmed by tools/confirm_seed.sh in a fresh worktree of /repo HEAD (builds, existing suite passes with the change, demo fails with it and passes without it)',
  'breaks': section('What it breaks')[:1500] or txt[:800],
- 'needs_to_manifest': section('What it needs')[:800],
+ 'needs_to_manifest': section('What it needs')[:800] or needs(),
  'what_was_run': ran,
  'caught_by_static_check': caught == 'true',
  'caught_by_rules': [r for r in rules.split(',') if r],
